@@ -83,13 +83,16 @@ M = [
     ('slice_wrong_start', ['C06'], BOTH, "H.add_interaction(u, v, f_from, b + 1)", "H.add_interaction(u, v, a, b + 1)"),
     ('slice_digraph_interactions_iter', ['C06'], (DIR,), "        for u, v, ts in self.out_interactions_iter():\n            i_to = t_to", "        for u, v, ts in self.interactions_iter():\n            i_to = t_to"),
     ('slice_returns_self', ['C06'], (UND,), "        # create new graph and copy subgraph into it\n        H = self.__class__()\n        if t_to is not None:", "        # create new graph and copy subgraph into it\n        H = self.__class__()\n        if t_to is not None and self.snapshots and t_from <= min(self.snapshots) and t_to >= max(self.snapshots):\n            return self\n        if t_to is not None:"),
-    ('to_directed_shallow_nodes', ['C16'], (UND,), "        G._node = deepcopy(self._node)\n        return G", "        G._node = dict(self._node)\n        return G"),
+    ('to_directed_shallow_nodes', ['C16'], (UND,), "        G._node = {n: deepcopy(d) for n, d in self._node.items()}\n        return G", "        G._node = dict(self._node)\n        return G"),
+    ('to_directed_deepcopies_node_ids', ['C16'], (UND,), "        G._node = {n: deepcopy(d) for n, d in self._node.items()}\n        return G", "        G._node = deepcopy(self._node)\n        return G"),
     ('to_undirected_unsorted_merge', ['C16'], (DIR,), "                for t in sorted(intervals):", "                for t in intervals:"),
-    ('to_undirected_shallow_graph_attrs', ['C16'], (DIR,), "        H.graph = deepcopy(self.graph)\n        H._node = deepcopy(self._node)\n        return H", "        H.graph = self.graph\n        H._node = deepcopy(self._node)\n        return H"),
+    ('to_undirected_shallow_graph_attrs', ['C16'], (DIR,), "        H.graph = deepcopy(self.graph)\n", "        H.graph = self.graph\n"),
     ('reciprocal_inclusive_end', ['C16'], (DIR,), "H.add_interaction(u, v, t=first, e=last + 1)", "H.add_interaction(u, v, t=first, e=last)"),
     ('reciprocal_is_union', ['C16'], (DIR,), "                if (v, u) in done or u not in self._succ[v]:\n                    continue", "                if (v, u) in done:\n                    continue\n                if u not in self._succ[v]:\n                    for o in data['t']:\n                        H.add_interaction(u, v, t=o[0], e=o[1] + 1)\n                    continue"),
     # ---- I/O
     ('single_instant_rows_dropped', ['C09'], (EDG,), "                else:\n                    yield delimiter.join(map(make_str, e))\n            else:", "                else:\n                    pass\n            else:"),
+    ('snapshot_writer_encodes_row_by_row', ['C09'], (EDG,), "    for line in generate_snapshots(G, delimiter):\n        line += '\\n'\n        path.write(encoder.encode(line))", "    for line in generate_snapshots(G, delimiter):\n        line += '\\n'\n        path.write(line.encode(encoding))"),
+    ('interaction_writer_encodes_row_by_row', ['C10'], (EDG,), "    for line in generate_interactions(G, delimiter):\n        line += '\\n'\n        path.write(encoder.encode(line))", "    for line in generate_interactions(G, delimiter):\n        line += '\\n'\n        path.write(line.encode(encoding))"),
     ('writer_ignores_delimiter', ['C09'], (EDG,), "    for line in generate_snapshots(G, delimiter):", "    for line in generate_snapshots(G):"),
     ('fourth_column_inclusive', ['C09'], (EDG,), "                if e is not None:\n                    e = timestamptype(e)\n", "                if e is not None:\n                    e = timestamptype(e) + 1\n"),
     ('interactions_reader_ignores_directed', ['C10'], (EDG,), "def parse_interactions(lines, comments='#', directed=False, delimiter=None, nodetype=None, timestamptype=None,\n                       keys=None):\n    if not directed:", "def parse_interactions(lines, comments='#', directed=False, delimiter=None, nodetype=None, timestamptype=None,\n                       keys=None):\n    if True:"),
